@@ -15,9 +15,12 @@ import (
 
 var now = time.Date(2024, 1, 1, 0, 0, 0, 0, time.UTC)
 
-func regularSuite(maxN, maxRate, step int) hlib.Suite {
-	return hlib.Suite{Name: fmt.Sprintf("regular/N<=%d/rate<=%d/step=%d/two-cycles", maxN, maxRate, step), Weight: 6, Run: func(r *hlib.Rec) {
-		for n := 2; n <= maxN; n++ {
+func regularSuite(maxN, maxRate, step int) hlib.Suite { return regularRange(2, maxN, maxRate, step) }
+
+// regularRange: minN > 1000 are intervals beyond 100 s (small rates spread over more than a thousand sub-ticks).
+func regularRange(minN, maxN, maxRate, step int) hlib.Suite {
+	return hlib.Suite{Name: fmt.Sprintf("regular/%d<=N<=%d/rate<=%d/step=%d/two-cycles", minN, maxN, maxRate, step), Weight: 6, Run: func(r *hlib.Rec) {
+		for n := minN; n <= maxN; n++ {
 			if !r.Mine() {
 				continue
 			}
@@ -441,9 +444,9 @@ func passSuite() hlib.Suite {
 
 func suites(tier string) []hlib.Suite {
 	if tier == "quick" {
-		return []hlib.Suite{regularSuite(100, 300, 1), regularSuite(30, 1_000_000, 331), hugeSuite(), varyingSuite(), randomSuite(4), passSuite(), triggerSuite(), longRunSuite(40_000_000)}
+		return []hlib.Suite{regularSuite(100, 300, 1), regularSuite(30, 1_000_000, 331), regularRange(1001, 1024, 400, 1), hugeSuite(), varyingSuite(), randomSuite(4), passSuite(), triggerSuite(), longRunSuite(40_000_000)}
 	}
-	return []hlib.Suite{regularSuite(1000, 1500, 1), regularSuite(60, 20000, 7), regularSuite(12, 2_000_000, 997), regularSuite(12, 450_000_000, 99991), regularSuite(1000, 450_000_000, 9_999_991), hugeSuite(), varyingSuite(), randomSuite(5), passSuite(), triggerSuite(), longRunSuite(400_000_000)}
+	return []hlib.Suite{regularSuite(1000, 1500, 1), regularSuite(60, 20000, 7), regularSuite(12, 2_000_000, 997), regularSuite(12, 450_000_000, 99991), regularSuite(1000, 450_000_000, 9_999_991), regularRange(1001, 1100, 1000, 1), regularRange(1990, 2010, 1000, 1), hugeSuite(), varyingSuite(), randomSuite(5), passSuite(), triggerSuite(), longRunSuite(400_000_000)}
 }
 
 func main() { hlib.EnumMain("C12", suites) }
